@@ -48,7 +48,7 @@ class C02(Check):
 
     def arms(self, tier):
         nfull = 24 if tier == "quick" else 640
-        arms = [("full", nfull * BLOCKS), ("w1", 194)]
+        arms = [("full", nfull * BLOCKS), ("w1", 194), ("mixhist", 64 if tier == "quick" else 1500)]
         if tier == "thorough":
             arms.append(("w3probe", 64))
         return arms
@@ -105,6 +105,27 @@ class C02(Check):
                 for o in co:
                     ops.insert(w.randrange(1, len(ops)), {"cotenant": o})
             return {"message": v.to_bytes(12, "big").hex(), "mclass": cls, "inplace": True, "little": index % 2 == 1, "ops": ops}
+        if arm == "mixhist":
+            # ONE receiver process hears SEVERAL related messages (a base message, its one-bit neighbours, zero, all ones: their codewords share
+            # most on-air bits), each reception with 0, 1 or 2 inverted bits, in a seeded order; the other mode of the public repair call
+            # (deinterleaved=True) and noise are part of the history but not judged
+            w = streams["work"]
+            base = w.getrandbits(96)
+            pool = [0, (1 << 96) - 1, base] + [base ^ (1 << w.randrange(96)) for _ in range(w.choice([0, 2, 8]))] + [1 << w.randrange(96) for _ in range(w.choice([0, 2, 30]))]
+            pool = w.sample(pool, w.choice([2, 3, len(pool)]))
+            ops = []
+            if w.random() < 0.25:
+                ops.append({"api": "repair_deinterleaved", "m": w.choice(pool).to_bytes(12, "big").hex()})
+            for _ in range(w.choice([100, 400, 1500])):
+                x = w.random()
+                if x < 0.01:
+                    ops.append({"api": "repair_deinterleaved", "m": w.choice(pool).to_bytes(12, "big").hex()})
+                elif x < 0.03:
+                    ops.append({"noise": w.getrandbits(32), "weight": w.choice([3, 5, 98, -1])})
+                else:
+                    ops.append({"m": w.choice(pool).to_bytes(12, "big").hex(), "p": sorted(w.sample(range(196), w.choice([0, 0, 1, 1, 2, 2, 2])))})
+            ops += [dict(o) for o in ops[:16]]
+            return {"task": "mixhist", "message": "00" * 12, "mclass": "mixed", "ops": ops}
         # informational: sampled weight-3 patterns
         w = streams["work"]
         v = w.getrandbits(96)
@@ -116,6 +137,14 @@ class C02(Check):
 
     def simplify(self, case):
         ops = case.get("ops") or []
+        if case.get("task") == "mixhist":
+            for i, o in enumerate(ops):
+                if len(o.get("p") or []) > 0:
+                    for k in range(len(o["p"])):
+                        o2 = list(ops)
+                        o2[i] = dict(o, p=o["p"][:k] + o["p"][k + 1:])
+                        yield dict(case, ops=o2)
+            return
         if len(ops) == 1 and len(ops[0]) > 1:
             for k in range(len(ops[0])):
                 yield dict(case, ops=[ops[0][:k] + ops[0][k + 1:]])
@@ -128,6 +157,8 @@ class C02(Check):
 
         res = core.RunResult()
         log = core.EventLog()
+        if case.get("task") == "mixhist":
+            return self._mixhist(case, res, log)
         msg = bitarray()
         msg.frombytes(bytes.fromhex(case["message"]))
         info = {}
@@ -187,6 +218,17 @@ class C02(Check):
                 diff = [i for i in range(196) if rep[i] != cw[i]]  # all 196 transmitted positions, the reserved bit R(3) included
                 if diff:
                     self._fail(fails, res, "C02.repair-alters-clean-codeword", "clean", case, p, f"repair changed positions {diff[:10]} of an error-free codeword")
+                # the repair call's other documented mode: the 196 bits handed over already de-interleaved (deinterleaved=True) -- an error-free
+                # codeword must come back unaltered there as well (same layout as it was given in)
+                dd = BPTC19696.deinterleave_all_bits(rx.copy())
+                try:
+                    rep2 = BPTC19696.repair_if_necessary(bits=dd.copy(), deinterleaved=True)
+                    diff2 = [i for i in range(196) if rep2[i] != dd[i]] if len(rep2) == 196 else ["length %d" % len(rep2)]
+                except Exception as e:
+                    diff2 = [type(e).__name__]
+                if diff2:
+                    self._fail(fails, res, "C02.repair-alters-clean-codeword", "clean:deinterleaved-mode", case, p,
+                               f"repair_if_necessary(deinterleave_all_bits(codeword), deinterleaved=True) changed {len(diff2)} positions {diff2[:10]} of an error-free codeword")
                 res.fault("weight0")
                 log.add(0, "rx", "clean", (d1.to01() == msg.to01(), d0.to01() == msg.to01()))
                 continue
@@ -212,6 +254,60 @@ class C02(Check):
         res["ops"] = len(pats)
         if case.get("little"):
             res.probe("message_in_little_endian_bitarray")
+        res["digest"] = log.digest()
+        return res
+
+    @staticmethod
+    def _mixhist(case, res, log):
+        import random as _random
+
+        from bitarray import bitarray
+        from okdmr.dmrlib.etsi.fec.bptc_196_96 import BPTC19696
+
+        for i, op in enumerate(case["ops"]):
+            if "noise" in op:
+                r = _random.Random(op["noise"])
+                nz = BPTC19696.encode(bitarray([r.getrandbits(1) for _ in range(96)]))
+                if op.get("weight", 98) < 0:
+                    nz = nz[:195]
+                else:
+                    for j in r.sample(range(196), op.get("weight", 98)):
+                        nz.invert(j)
+                try:
+                    BPTC19696.deinterleave_data_bits(nz, True)
+                except Exception:
+                    pass
+                res.fault("noise_reception")
+                continue
+            msg = bitarray()
+            msg.frombytes(bytes.fromhex(op["m"]))
+            if "api" in op:
+                try:  # the public repair call in its other mode (bits already de-interleaved); result not judged here
+                    BPTC19696.repair_if_necessary(BPTC19696.deinterleave_all_bits(BPTC19696.encode(msg.copy())), deinterleaved=True)
+                except Exception:
+                    pass
+                res.fault("other_api_mode_call")
+                continue
+            p = op["p"]
+            rx = BPTC19696.encode(msg.copy())
+            for j in p:
+                rx.invert(j)
+            res["evals"] += 1
+            d = BPTC19696.deinterleave_data_bits(rx.copy(), True)
+            ok = d.to01() == msg.to01()
+            ok0 = True
+            if not p:
+                ok0 = BPTC19696.deinterleave_data_bits(rx.copy(), False).to01() == msg.to01()
+            log.add(i, "rx", (op["m"], p), (ok, ok0))
+            res.fault(f"weight{len(p)}")
+            res["cov"].add(f"mixed|w{len(p)}")
+            if not (ok and ok0):
+                res.violate("C02.correctable-error-misdecoded" if p else "C02.clean-roundtrip", f"mixed:w{len(p)}",
+                            f"reception #{i} of a history over several messages: message {op['m']} with inverted positions {p} decoded as "
+                            f"{bytes(d.tobytes()).hex()} (with repair){'' if ok0 else ' / wrong without repair'}", at=i)
+                if len(res["viol"]) >= 3:
+                    break
+        res["ops"] = len(case["ops"])
         res["digest"] = log.digest()
         return res
 
